@@ -433,13 +433,11 @@ impl Engine for C16 {
                         Some(p) if p != c.local_var_prefix => viol.push(Violation {
                             invariant: "I2".into(),
                             key: "I2:explicit-prefix-ignored".into(),
-                            detail: format!("configured prefix {p} but rewriter uses {}", c.local_var_prefix),
-                        }),
+                            detail: format!("configured prefix {p} but rewriter uses {}", c.local_var_prefix), plan_override: None }),
                         None if !prefix_ok(&c.local_var_prefix) => viol.push(Violation {
                             invariant: "I2".into(),
                             key: "I2:default-prefix-shape".into(),
-                            detail: format!("default prefix {:?} is not six lower-case letters", c.local_var_prefix),
-                        }),
+                            detail: format!("default prefix {:?} is not six lower-case letters", c.local_var_prefix), plan_override: None }),
                         _ => {}
                     }
                     log.push(format!("#{seq} NewRewriter r={i} prefix={}", c.local_var_prefix));
@@ -448,7 +446,7 @@ impl Engine for C16 {
                 }
                 Err(o) => {
                     log.push(format!("#{seq} NewRewriter r={i} PANIC {:?}", o));
-                    viol.push(Violation { invariant: "I4".into(), key: "I4:panic:to_config".into(), detail: format!("{:?}", o) });
+                    viol.push(Violation { invariant: "I4".into(), key: "I4:panic:to_config".into(), detail: format!("{:?}", o), plan_override: None });
                     prefixes.push(String::new());
                     configs.push(None);
                 }
@@ -477,6 +475,7 @@ impl Engine for C16 {
                     invariant: "I4".into(),
                     key: format!("I4:panic:{loc}"),
                     detail: format!("rewrite panicked at {loc}: {msg} (op #{at}, source kind {})", plan.sources[s].kind),
+                    plan_override: None,
                 });
             }
             match model.get(&key) {
@@ -497,8 +496,7 @@ impl Engine for C16 {
                                 first.class(),
                                 o.class(),
                                 first_diff(first, o)
-                            ),
-                        });
+                            ), plan_override: None });
                     }
                 }
             }
@@ -520,13 +518,12 @@ impl Engine for C16 {
                                 viol.push(Violation {
                                     invariant: "I2".into(),
                                     key: "I2:prefix-not-a-function-of-prng".into(),
-                                    detail: format!("re-created rewriter {r} under the same PRNG seed drew prefix {} instead of {}", c.local_var_prefix, prefixes[*r]),
-                                });
+                                    detail: format!("re-created rewriter {r} under the same PRNG seed drew prefix {} instead of {}", c.local_var_prefix, prefixes[*r]), plan_override: None });
                             }
                             configs[*r] = Some(c);
                         }
                         Err(o) => {
-                            viol.push(Violation { invariant: "I4".into(), key: "I4:panic:to_config".into(), detail: format!("{:?}", o) });
+                            viol.push(Violation { invariant: "I4".into(), key: "I4:panic:to_config".into(), detail: format!("{:?}", o), plan_override: None });
                         }
                     }
                     log.push(format!("#{seq} Renew r={r}"));
@@ -585,8 +582,7 @@ impl Engine for C16 {
                                 viol.push(Violation {
                                     invariant: "I2".into(),
                                     key: "I2:prefix-not-a-function-of-prng".into(),
-                                    detail: format!("fresh rewriter under the same PRNG seed drew prefix {} instead of {}", c.local_var_prefix, prefixes[*r]),
-                                });
+                                    detail: format!("fresh rewriter under the same PRNG seed drew prefix {} instead of {}", c.local_var_prefix, prefixes[*r]), plan_override: None });
                             }
                             exec::call(&c, &plan.sources[*s].text, &plan.files[*f], &plan.fs, &FaultPlan::clean()).outcome
                         }
@@ -617,8 +613,7 @@ impl Engine for C16 {
                             viol.push(Violation {
                                 invariant: "I2".into(),
                                 key: "I2:prefix-not-a-function-of-prng".into(),
-                                detail: format!("rewriter built on another thread under the same PRNG seed drew prefix {} instead of {}", p, prefixes[*r]),
-                            });
+                                detail: format!("rewriter built on another thread under the same PRNG seed drew prefix {} instead of {}", p, prefixes[*r]), plan_override: None });
                         }
                     }
                     if plan.rewriters[*r].cfg.get("localVarPrefix").is_none() {
